@@ -37,3 +37,12 @@ Theorem C14_refuted_without :
      2 <= fired w /\ out = IRaised (LabErr t)).
 Proof. exact (conj prune_after_refuted (conj drain_not_swallowing_refuted stop_not_swallowing_refuted)). Qed.
 Print Assumptions C14_refuted_without.
+
+(* The cache is left consistent when the interrupt lands inside a save running in the caller (serial backend): the
+   failure handling of BaseCache.save read from the source covers every exception class (BaseException), so the
+   statement of C12 applies to KeyboardInterrupt as to any other fault point. *)
+Require Import LT.Model.Cache LT.Proofs.CacheProofs.
+Theorem C14_interrupted_save_consistent : forall order fl st k m d wm wd n,
+  consistent (failed_save save_cleanup_src order fl st k m d wm wd n) k = true.
+Proof. exact (fun order fl st k m d wm wd n => proj1 (proj2 (failed_save_safe order fl st k m d wm wd n))). Qed.
+Print Assumptions C14_interrupted_save_consistent.
